@@ -80,3 +80,24 @@ static void cap_harness() {
   if (j >= c && j < sizeof buf) vassert(buf[j] == 0xA5, 5);                        // not a single byte beyond the end of the buffer
   vrt_end();
 }
+
+// C06: BoundedWriter over a buffer writer whose OWN capacity c is the limiting one (the bound is generous):
+// the wrapped writer's refusal must come through and nothing may be written behind c.
+template <typename T, typename Inner>
+static void cap_inner_harness() {
+  T v; Meta<T>::draw(&v);
+  const std::uint8_t cdraw = nd8();
+  std::uint8_t buf[Cap<T>::value + 4];
+  std::memset(buf, 0xA5, sizeof buf);
+  std::size_t g;
+  { Wr<PBW> probe(buf, 0); g = probe.get_size(v); }
+  vassume(g + 1 <= Cap<T>::value);
+  const std::size_t c = cdraw; vassume(c <= g + 1);
+  Wr<BndW<Inner>> w(buf, c, g + 8);                       // inner capacity c, bound g + 8
+  auto st = w.write(v);
+  if (c >= g) { vassert(!!st && w.produced() == g, 1); }
+  else vassert(!st && st.error() == nop::ErrorStatus::WriteLimitReached, 2);
+  const std::size_t j = nd8();
+  if (j >= c && j < sizeof buf) vassert(buf[j] == 0xA5, 3);
+  vrt_end();
+}
